@@ -1,11 +1,11 @@
 /-
   C01 — decoding the XDR encoding of any value returns that value.
-  (first instalment: the leaf readers invert the RFC encoding for every payload, suffix and offset;
-   the theorem for whole specifications, `C01_roundtrip`, follows as the emitter lemmas land)
+  `C01_roundtrip`: whole specifications, every declared type, every well-typed value, any nesting depth.
 -/
 import Fx.Eval
 import Fx.Xdr
 import Fx.Lemmas.Runtime
+import Fx.Lemmas.Roundtrip
 namespace Fx.C01
 open Fx
 
@@ -39,5 +39,40 @@ theorem C01_fixed_opaque (bs s : List Byte) (o : Nat) (l) :
       .ok (.bytes o bs) ⟨o + (bs.length + padLen bs.length), s, l⟩ := by
   simp only [XVal.enc]
   exact readBytes_enc bs s o l
+
+/-- **Decoding the encoding of any value returns that value.**
+    For every `Ast` in the supported subset (`Supported`, decidable, read off the declarations: no bracket-less `opaque`
+    field or `opaque` union arm — finding K1 —, declared references, decimal bounds, …) for which generation succeeds,
+    every declared type `n`, every value `x` that the reference typing `hasTypeNamed` accepts for `n` (any nesting depth,
+    counted arrays of variable-sized structs/unions/typedefs included), every trailing suffix `s`, every leading offset
+    `off`, and any fuel above the size of `x`: the generated decoder run on `enc x ++ s` returns exactly the documented
+    Rust value `reprNamed a n off x` — every field, element, optional link, arm and payload, each opaque leaf being the
+    window of the input at its wire offset — and leaves the cursor right after the encoding with `s` untouched.
+    Both families (`C03_families_agree`).
+    Hypothesis `MatchSelects`: the emitted arm list of every union selects the declared arm (`C06_match_selects`;
+    vacuous for specifications without unions, see `C01_roundtrip_no_unions`). -/
+theorem C01_roundtrip (a : Ast) (m : Module) (hs : Supported a = true) (hg : generateModule a = .ok m)
+    (hms : MatchSelects a m.plans) (n : String) (x : XVal) (h : hasTypeNamed a n x = true)
+    (fuel : Nat) (hf : x.fsize < fuel) (off : Nat) (s : List Byte) (l : List Ev) :
+    ∃ l', evalImpl a m.plans fuel n ⟨off, x.enc ++ s, l⟩ = .ok (reprNamed a n off x) ⟨off + x.enc.length, s, l'⟩ :=
+  roundtrip hs hg hms n x h fuel hf off s l
+
+/-- for specifications that declare no union the hypothesis on arm selection is vacuous -/
+theorem C01_roundtrip_no_unions (a : Ast) (m : Module) (hs : Supported a = true) (hg : generateModule a = .ok m)
+    (hnu : ∀ n u, bget n a.types ≠ some (.union u))
+    (n : String) (x : XVal) (h : hasTypeNamed a n x = true)
+    (fuel : Nat) (hf : x.fsize < fuel) (off : Nat) (s : List Byte) (l : List Ev) :
+    ∃ l', evalImpl a m.plans fuel n ⟨off, x.enc ++ s, l⟩ = .ok (reprNamed a n off x) ⟨off + x.enc.length, s, l'⟩ :=
+  roundtrip hs hg (fun n u _ _ hb _ _ => absurd hb (hnu n u)) n x h fuel hf off s l
+
+/-- consequence (C02 for values): `wire_size()` of the decoded value is the length of the encoding -/
+theorem C01_wire_size_is_encoded_length (a : Ast) (m : Module) (hs : Supported a = true) (hg : generateModule a = .ok m)
+    (hms : MatchSelects a m.plans) (n : String) (x : XVal) (h : hasTypeNamed a n x = true) :
+    wsVal m.plans (reprNamed a n 0 x) = x.enc.length := by
+  obtain ⟨l', e⟩ := roundtrip hs hg hms n x h (x.fsize + 1) (by omega) 0 [] []
+  have := (eval_consumed a m.plans (supported_plans hs hg).2 (x.fsize + 1)).1 n _ _ _ e
+  have h2 := this.2.1
+  simp only at h2
+  omega
 
 end Fx.C01
